@@ -5,6 +5,7 @@ import ast
 
 from ..astutil import (call_name, calls_in, const_value, find_func, is_self_attr, names_in, parse_expr, parse_stmt,
                        replace_node)
+from ..astutil import inline_single_defs
 from ..cfg import CFG
 from ..frontend import AnalysisError, walk_function, walk_stmts
 from ..nf import RF, to_nf, NFUnsupported
@@ -421,8 +422,9 @@ def _r4(ctx):
         return None
     defs = {"S_a": ("(S_max - S_min)/2", None), "epsilon_a": ("(epsilon_max - epsilon_min)/2", None),
             "S_m": ("(S_min + S_max)/2", 0), "epsilon_m": ("(epsilon_min + epsilon_max)/2", 0), "R": ("S_min/S_max", -1)}
+    from ..inline import inlined
     for name, (ref, override) in defs.items():
-        f = prog.lookup_method(ci, name)
+        f = inlined(prog, prog.lookup_method(ci, name))            # shared private helpers (amplitude / mean value) expanded
         r = [s for s in f.node.body if isinstance(s, ast.Return)][-1]
         env = {s.targets[0].id: s.value for s in f.node.body if isinstance(s, ast.Assign) and isinstance(s.targets[0], ast.Name)}
         v = r.value
@@ -435,6 +437,13 @@ def _r4(ctx):
             ov, v = const_value(a), b
         if isinstance(v, ast.Name) and v.id in env:
             v = env[v.id]
+            if isinstance(v, ast.Call) and call_name(v) == "np.where" and ov is None:
+                sel, a, b = v.args
+                if not is_self_attr(sel, "is_zero_mean_stress_and_strain"):
+                    ctx.violated(f, r, "%s: override is not keyed on the zero-mean flag" % name)
+                    continue
+                ov, v = const_value(a), b
+        v = inline_single_defs(f.node, v)
         try:
             ok = to_nf(v, atom=atom) == to_nf(parse_expr(ref)) and ov == override
         except NFUnsupported as e:
